@@ -652,12 +652,10 @@ impl Quantity {
         Self::new(
             #[cfg(feature = "std")]
             self.value.abs(),
+            //`f32::abs` clears the sign bit; doing exactly that keeps `no_std` builds bit-identical
+            //to `std` ones (-0.0 and NaN included).
             #[cfg(not(feature = "std"))]
-            if self.value >= 0.0 {
-                self.value
-            } else {
-                -self.value
-            },
+            f32::from_bits(self.value.to_bits() & 0x7fff_ffff),
             self.unit,
         )
     }
